@@ -1,7 +1,7 @@
 (** C13_micro. shutdown() split into its stages: the flag is final and refuses every call that begins after it
     This file only pins statements: every theorem restates a lemma of proofs/ verbatim and is closed by it. *)
 From CacheD Require Import Base Sketch Model Window Micro.
-From CacheD.proofs Require Import Defs ApiProofs HistoryProofs.
+From CacheD.proofs Require Import Defs ApiProofs HistoryProofs StatsProofs.
 From CacheD.proofs Require Import MicroProofs.
 
 (** (C13, shutdown in stages): the flag never goes down again, whatever micro step of whatever caller (puts,
